@@ -29,7 +29,8 @@ CHECKS = {
     "C02": _c(
         "other",
         "History quantifier handled by a representation invariant wf(tree) that every public operation must preserve: proved for the small pure pieces "
-        "(leg rules, copy completeness as a syntactic frame clause); preservation by the large mutators is checked bounded: ALL histories up to a length bound "
+        "(leg rules, _remove_node, contract_nodes_pair, reset_contraction_indices, remove_ind in place: per-node effect + invalidation of every dependent recipe, closed under parents; "
+        "copy completeness as a syntactic frame clause); preservation by the remaining large mutators is checked bounded: ALL histories up to a length bound "
         "over a menu of operations from prepared cache states, with wf and the polynomial value checked on deep snapshots after every step.",
         "History length, operation menu and network sizes are bounded (stated in evidence).",
     ),
@@ -64,7 +65,8 @@ CHECKS = {
     "C07": _c(
         "other",
         "Proved for all inputs: ContractionCosts.__init__ establishes and ContractionCosts.remove preserves the cost-model invariant (per-contraction flops/size are the "
-        "products over the reduced index sets, tracked flops = their sum, tracked sizes = their multiset, where-map exact); MaxCounter invariant; copy completeness. "
+        "products over the reduced index sets, tracked flops = their sum, tracked sizes = their multiset, where-map exact); SliceFinder.best/search return a cached slicing that "
+        "satisfies every target in force; MaxCounter invariant; copy completeness. "
         "Bounded: whenever SliceFinder.search returns, predicted size/flops/nslices equal those of the tree "
         "actually sliced, targets honoured, forbidden indices never chosen; ContractionCosts.remove == ContractionTree.remove_ind figures for every index and ordered pair.",
         "Searches that raise are outside the property and counted separately.",
@@ -149,8 +151,10 @@ CHECKS = {
     ),
     "C20": _c(
         "other",
-        "Proved: CompressedStatsTracker arithmetic (running sums/maxima, frame). Bounded: compressed estimates == exact figures when chi is huge, monotone in chi, compressed finders return complete trees.",
-        "HyperGraph queries abstracted as pure functions in the proof.",
+        "Proved: CompressedStatsTracker arithmetic (running sums/maxima, frame); HyperGraph.contract/remove_node/add_node (hypergraph rule under the incidence invariant); "
+        "neighborhood_compress_cost (no bond above the cap => no compression cost) and compress (size afterwards = old size or min(bond size, cap)) for arbitrary edge groups. "
+        "Bounded: compressed estimates == exact figures when chi is huge or exactly the largest arising bond, monotone in chi, compressed finders return complete trees.",
+        "The edge-grouping loops of compress / neighborhood_compress_cost are abstracted by havoc after a frame check; compressed_contract_stats as a whole is bounded.",
     ),
 }
 
